@@ -939,10 +939,13 @@ func oracle(args []string) {
 			continue
 		}
 		label := fmt.Sprintf("gen:%s:%d", allKinds[i%len(allKinds)], i)
-		if i%6 == 4 && len(f.IATBatches) == 0 && !hasOffsetEntries(f) {
+		if (i%6 == 4 || (len(f.IATBatches) > 0 && i%2 == 0)) && !hasOffsetEntries(f) {
 			// a file that is valid only under the options stored on it
 			if g := needsOpts(f, r); g != nil {
 				sum.Dist["needs-opts"]++
+				if len(g.IATBatches) > 0 {
+					sum.Dist["needs-opts-iat"]++
+				}
 				run(g, label+":needs-opts")
 				continue
 			}
@@ -996,9 +999,26 @@ func needsOpts(f *ach.File, r *rng.R) (out *ach.File) {
 			}
 		}
 	}
+	// IAT entries too: IATBatch.build keeps foreign trace numbers only under the stored options
+	for i := range g.IATBatches {
+		for _, e := range g.IATBatches[i].GetEntries() {
+			if custom && e.Category == ach.CategoryForward {
+				n += r.Range(1, 9)
+				e.TraceNumber = fmt.Sprintf("99887766%07d", n)
+				// the IAT addenda carry the entry's sequence number (last 7 digits of the trace)
+				seq := n % 10000000
+				setIATAddendaSeq(e, seq)
+			}
+		}
+	}
 	applyOpts(g, o)
 	for _, b := range g.Batches {
 		if err := b.Create(); err != nil {
+			return nil
+		}
+	}
+	for i := range g.IATBatches {
+		if err := g.IATBatches[i].Create(); err != nil {
 			return nil
 		}
 	}
@@ -1149,4 +1169,35 @@ func cli(args []string) {
 		}
 	}
 	put(sum)
+}
+
+// setIATAddendaSeq points the mandatory IAT addenda of an entry at a new entry sequence number.
+func setIATAddendaSeq(e *ach.IATEntryDetail, seq int) {
+	if e.Addenda10 != nil {
+		e.Addenda10.EntryDetailSequenceNumber = seq
+	}
+	if e.Addenda11 != nil {
+		e.Addenda11.EntryDetailSequenceNumber = seq
+	}
+	if e.Addenda12 != nil {
+		e.Addenda12.EntryDetailSequenceNumber = seq
+	}
+	if e.Addenda13 != nil {
+		e.Addenda13.EntryDetailSequenceNumber = seq
+	}
+	if e.Addenda14 != nil {
+		e.Addenda14.EntryDetailSequenceNumber = seq
+	}
+	if e.Addenda15 != nil {
+		e.Addenda15.EntryDetailSequenceNumber = seq
+	}
+	if e.Addenda16 != nil {
+		e.Addenda16.EntryDetailSequenceNumber = seq
+	}
+	for _, a := range e.Addenda17 {
+		a.EntryDetailSequenceNumber = seq
+	}
+	for _, a := range e.Addenda18 {
+		a.EntryDetailSequenceNumber = seq
+	}
 }
